@@ -21,6 +21,17 @@ def cuts(rng, T):
 
 
 def gen_scenario(rng, i):
+    r0 = rng.random()
+    if r0 < 0.12:
+        # a STAND-ALONE node of every kind, driven one timestep at a time (Node.call), the returned arrays being kept as they are
+        kind = rng.choice(["fun", "acc", "res", "resext", "delay", "nvar", "lin"])
+        din = rng.randint(1, 2)
+        nodes = [scengen.make_node(rng, 0, kind, din)]
+        sc = {"nodes": nodes, "models": scengen.chain_models(nodes, []), "ops": [], "entries": [0], "din": din, "tag": i, "family": "single-" + kind}
+        X = scengen.rows(rng, rng.randint(3, 7), din)
+        sc["X"] = X
+        sc["ops"] = [{"op": "call", "model": 0, "x": x} for x in X]
+        return sc
     if rng.random() < 0.4:
         sc = c05.gen_scenario(rng, i, rng.choice(["down", "up", "sub-up", "sub-down", "resfb", "esn-fb"]))
         sc["ops"] = []
